@@ -764,7 +764,7 @@ Proof.
   - destruct (pool_busy s <? threads g); try discriminate. eapply p_start_inv; eauto.
   - eapply p_handle_inv; eauto.
   - eapply p_finish_inv; eauto.
-  - eapply p_finlock_inv; eauto.
+  - destruct (fin_by_main s c); try discriminate. eapply p_finlock_inv; eauto.
   - eapply p_cancel_inv; eauto.
   - inv_some. unfold Inv in *. simpl. apply invp_connect; auto.
   - destruct (getc s c) as [x|] eqn:Hx; try discriminate. destruct (eof x); try discriminate.
@@ -907,7 +907,7 @@ Proof.
     destruct (nth_error (conns s) c0) as [x0|] eqn:Hx0; try discriminate. destruct (st x0) eqn:Hst0; try discriminate.
     destruct (ka && alive s); inv_some; simpl in Hx'; upd_cases Hx' c; try congruence; same_conn Hx Hx'.
     discriminate. left. exists ka. rewrite Hx0 in Hx. inversion Hx; subst. auto.
-  - unfold p_finlock, getc in E.
+  - destruct (fin_by_main s c0); try discriminate. unfold p_finlock, getc in E.
     destruct (nth_error (conns s) c0) as [x0|] eqn:Hx0; try discriminate. destruct (st x0) eqn:Hst0; try discriminate.
     destruct (pclosed s || mem c0 (regd s)); inv_some; simpl in Hx'; upd_cases Hx' c; try congruence; same_conn Hx Hx'.
     right; left. rewrite Hx0 in Hx. inversion Hx; subst. auto. discriminate.
@@ -1029,7 +1029,7 @@ Proof.
   - destruct (pool_busy s <? threads g); try discriminate. eapply p_start_ext; eauto.
   - eapply p_handle_ext; eauto.
   - eapply p_finish_ext; eauto.
-  - eapply p_finlock_ext; eauto.
+  - destruct (fin_by_main s c); try discriminate. eapply p_finlock_ext; eauto.
   - eapply p_cancel_ext; eauto.
   - inv_some. simpl. apply ext_app.
   - destruct (getc s c) as [x|]; try discriminate. destruct (eof x); try discriminate.
@@ -1170,7 +1170,7 @@ Proof.
     unfold Bnd in *. rewrite A, B. auto.
   - destruct (p_handle_same _ _ _ _ E) as [A [_ [B _]]]. unfold Bnd in *. rewrite A, B. auto.
   - destruct (p_finish_same _ _ _ _ E) as [A [_ [B _]]]. unfold Bnd in *. rewrite A. lia.
-  - destruct (p_finlock_same _ _ _ E) as [A [_ [B _]]]. unfold Bnd in *. rewrite A. lia.
+  - destruct (fin_by_main s c); try discriminate. destruct (p_finlock_same _ _ _ E) as [A [_ [B _]]]. unfold Bnd in *. rewrite A. lia.
   - destruct (p_cancel_same _ _ _ E) as [A [_ [B _]]]. unfold Bnd in *. rewrite A. lia.
   - inv_some. exact H.
   - destruct (getc s c) as [x|]; try discriminate. destruct (eof x); try discriminate.
@@ -1254,7 +1254,7 @@ Proof.
     unfold Tm in *. rewrite A, B. auto.
   - destruct (p_handle_same _ _ _ _ E) as [A [_ [_ B]]]. unfold Tm in *. rewrite A, B. auto.
   - destruct (p_finish_same _ _ _ _ E) as [A [_ [_ B]]]. unfold Tm in *. rewrite A, B. auto.
-  - destruct (p_finlock_same _ _ _ E) as [A [_ [_ B]]]. unfold Tm in *. rewrite A, B. auto.
+  - destruct (fin_by_main s c); try discriminate. destruct (p_finlock_same _ _ _ E) as [A [_ [_ B]]]. unfold Tm in *. rewrite A, B. auto.
   - destruct (p_cancel_same _ _ _ E) as [A [_ [_ B]]]. unfold Tm in *. rewrite A, B. auto.
   - inv_some. exact H.
   - destruct (getc s c) as [x|]; try discriminate. destruct (eof x); try discriminate.
@@ -1325,7 +1325,7 @@ Proof.
   - unfold p_finish, getc in E.
     destruct (nth_error (conns s) c0) as [x0|] eqn:Hx0; try discriminate. destruct (st x0) eqn:Hst0; try discriminate.
     destruct (ka && alive s); inv_some; simpl in Hx'; upd_cases Hx' c; try congruence; same_conn Hx Hx'; discriminate.
-  - unfold p_finlock, getc in E.
+  - destruct (fin_by_main s c0); try discriminate. unfold p_finlock, getc in E.
     destruct (nth_error (conns s) c0) as [x0|] eqn:Hx0; try discriminate. destruct (st x0) eqn:Hst0; try discriminate.
     destruct (pclosed s || mem c0 (regd s)); inv_some; simpl in Hx'; upd_cases Hx' c; try congruence; same_conn Hx Hx'; discriminate.
   - unfold p_cancel, getc in E.
@@ -1399,7 +1399,7 @@ Proof.
     exfalso. eapply not_quiet_none; eauto. rewrite Hst. auto.
   - unfold p_finish in E. destruct (getc s c) as [x|] eqn:Hx; try discriminate. destruct (st x) eqn:Hst; try discriminate.
     exfalso. eapply not_quiet_none; eauto. rewrite Hst. auto.
-  - unfold p_finlock in E. destruct (getc s c) as [x|] eqn:Hx; try discriminate. destruct (st x) eqn:Hst; try discriminate.
+  - destruct (fin_by_main s c); try discriminate. unfold p_finlock in E. destruct (getc s c) as [x|] eqn:Hx; try discriminate. destruct (st x) eqn:Hst; try discriminate.
     exfalso. eapply not_quiet_none; eauto. rewrite Hst. auto.
   - unfold p_cancel in E. destruct (getc s c) as [x|] eqn:Hx; try discriminate. destruct (st x) eqn:Hst; try discriminate.
     exfalso. eapply not_quiet_none; eauto. rewrite Hst. auto.
@@ -1885,7 +1885,7 @@ Proof.
     rewrite A. split; auto. eapply waiting_frame; eauto. eapply p_handle_other; eauto.
   - destruct (p_finish_same _ _ _ _ E) as [A _].
     rewrite A. split; auto. eapply waiting_frame; eauto. eapply p_finish_other; eauto.
-  - destruct (p_finlock_same _ _ _ E) as [A _].
+  - destruct (fin_by_main s c0); try discriminate. destruct (p_finlock_same _ _ _ E) as [A _].
     rewrite A. split; auto. eapply waiting_frame; eauto. eapply p_finlock_other; eauto.
   - destruct (p_cancel_same _ _ _ E) as [A _].
     rewrite A. split; auto. eapply waiting_frame; eauto. eapply p_cancel_other; eauto.
